@@ -25,7 +25,9 @@ Definition ex_st1 : state := fst (run ex_tbl ex_cm [ex_req 0]).
 
 (* ------------------------------------------------------------------ a resource can be requested at most once *)
 Theorem C19_request_at_most_once t cm st q :
-  In (q_key q) (requested st) -> request t cm st q = (st, Error EResource).
+  In (q_key q) (requested st) ->
+  request t cm st q =
+  (st, Error (EResource (match tbl_lookup t (q_key q) with Some _ => RAgain | None => RNoSuch end))).
 Proof. exact (request_again t cm st q). Qed.
 Print Assumptions C19_request_at_most_once.
 
@@ -70,7 +72,7 @@ Theorem C19_conflict_is_ResourceError t cm st q res st' e :
   tbl_lookup t (q_key q) = Some res -> key_mem (q_key q) (requested st) = false ->
   wf_node res -> q_dir q = DDash -> q_xdr q = XNone ->
   Forall (leaf_resolves (cm_fuel cm) cm) (leaves_of res) ->
-  request t cm st q = (st', Error e) -> e = EResource.
+  request t cm st q = (st', Error e) -> e = EResource RConflict.
 Proof. exact (request_dash_refusal t cm st q res st' e). Qed.
 Print Assumptions C19_conflict_is_ResourceError.
 
@@ -81,7 +83,7 @@ Theorem C19_refusal_kind t cm st q res d x st' e :
   merge_options res (q_dir q) (q_xdr q) = inr (d, x) ->
   Forall (fun j => opts_ok (j_d j) (j_x j)) (flatten res d x (root_path q) (node_attrs res)) ->
   Forall (leaf_resolves (cm_fuel cm) cm) (leaves_of res) ->
-  request t cm st q = (st', Error e) -> e = EResource.
+  request t cm st q = (st', Error e) -> e = EResource RConflict.
 Proof. exact (request_refusal_kind t cm st q res d x st' e). Qed.
 Print Assumptions C19_refusal_kind.
 
@@ -92,7 +94,7 @@ Example C19_conflict_example :
   (exists d x, merge_options ex_b DDash XNone = inr (d, x) /\
      Forall (fun j => opts_ok (j_d j) (j_x j)) (flatten ex_b d x (root_path (ex_req 1)) (node_attrs ex_b))) /\
   Forall (leaf_resolves (cm_fuel ex_cm) ex_cm) (leaves_of ex_b) /\
-  request ex_tbl ex_cm ex_st1 (ex_req 1) = (ex_st1, Error EResource).
+  request ex_tbl ex_cm ex_st1 (ex_req 1) = (ex_st1, Error (EResource RConflict)).
 Proof.
   split; [reflexivity|]. split.
   { exists 1. split; [vm_compute; auto|].
